@@ -333,7 +333,13 @@ def main():
                        ('time at "8:00"', False), ('time at', False),
                        ('define t 8:00 time at t', True), ('define t 8:00 time at t or t', True),
                        ('define n 5 time at n', False), ('define s "x" time at s', False),
-                       ('define t 8:00 time at 9:00 or s', False)]:
+                       ('define t 8:00 time at 9:00 or s', False)] + \
+            [('time at ' + ' or '.join(['12:00', '13:30', '*:15'][:k] + [bad] + ['14:00', '2*:0*', '7:07'][:n - k - 1]),
+              False)
+             for bad in ('25:00', '12:60', '3*:00', '24:00', '1:6*', '99:99', '5', '"8:00"', 'nosuch')
+             for n in (2, 3, 4) for k in range(n)] + \
+            [('time at 12:00 or 13:30 or *:15 or 2*:0*', True), ('define n 5 time at 12:00 or n or 13:00', False),
+             ('define t 8:00 time at 12:00 or t or 13:00', True)]:
         got, parser = compile_accepts(Parser, text)
         chk.count()
         if got is not want:
